@@ -50,6 +50,34 @@ def scenarios(ctx):
         ops.append(("flag", 0))
         ops += [("run",)] + [(("run",) if rng.random() < 0.5 else ("result", rng.choice(names))) for _ in range(rng.randrange(0, 3))]
         out.append(Scenario(graphs.shuffled(rng, cmds), ops=ops))
+    # a run stopped by a failure, then a referenced command taken out of the program (del program.commands[name]) and added again under the same name with
+    # other references, the cause removed, run again: consumers that had not run are fed by the command that carries the name *now*
+    for _ in range(ctx.budget(25, 800)):
+        n = rng.randrange(3, 9)
+        cmds = graphs.dag_commands(rng, n, cmd_pool=("N", "N", "N", "X"))
+        consumers = {}
+        for c in cmds:
+            for d in set(graphs.refs_of(c)):
+                consumers.setdefault(d, []).append(c[0])
+        cands = [c[0] for c in cmds if c[0] in consumers]
+        if not cands:
+            continue
+        x = rng.choice(cands)
+        xi = [c[0] for c in cmds].index(x)
+        # the failing command: the replaced one itself, or something it feeds (so that its consumers cannot all have run)
+        f = rng.choice([x] + consumers[x])
+        fi = [c[0] for c in cmds].index(f)
+        res, cmd, args = cmds[fi]
+        cmds[fi] = (res, cmd, list(args) + [("Fail", "flag")])
+        # the replacement may reference only commands numbered below x (no loop can arise), other ones than before where possible
+        newdeps = [cmds[j][0] for j in rng.sample(range(xi), rng.randrange(0, min(xi, 3) + 1))] if xi else []
+        repl = graphs.make_command(rng, x, "N", newdeps)
+        ops = [("run",), ("del", x), ("add", repl), ("flag", 0), ("run",)]
+        if rng.random() < 0.4:
+            ops.append(("result", rng.choice([c[0] for c in cmds])))
+        sc_ = Scenario(graphs.shuffled(rng, cmds), ops=ops)
+        sc_.replaced = x
+        out.append(sc_)
     # the program deep-copied (the original dropped) before, between and after runs: the copy is the same program, with what has finished
     for _ in range(ctx.budget(20, 600)):
         n = rng.randrange(2, 9)
@@ -110,7 +138,29 @@ def oracle_recovery(ctx, sc, res):
         ctx.fail("after the successful run() the commands %r are not finished" % sorted(set(names) - set(res["finished"])), sc.describe())
 
 
+def oracle_replaced(ctx, sc, res):
+    """after del/add of a command under the same name and a successful run: every command of the program now has completed, none twice since the
+    replacement, and everything read after it came from the command that carries the name now"""
+    names = [c[0] for c in sc.commands]
+    if res["load"] != "ok" or any(o != "ok" for o in res["ops"][1:]):
+        ctx.fail("a model whose failing cause was removed and one command replaced still fails: load=%s ops=%s" % (res["load"], res["ops"]), sc.describe())
+        return
+    for consumer, producer, fin_before, is_final in res["reads"]:
+        if not is_final:
+            ctx.fail("%s read a result of %s that is not the finished result of the command carrying that name in the program" % (consumer, producer), sc.describe())
+            return
+    done = [e[1:] for e in res["log"] if e[0] == "-"]
+    for n in names:
+        if n != sc.replaced and done.count(n) != 1:
+            ctx.fail("command %s completed %d times over a failed run, a replacement of %s and a successful run (expected exactly once)" % (n, done.count(n), sc.replaced), sc.describe())
+            return
+    if sorted(res["finished"]) != sorted(names):
+        ctx.fail("after the successful run() the commands %r are not finished" % sorted(set(names) - set(res["finished"])), sc.describe())
+
+
 def oracle(ctx, sc, res):
+    if getattr(sc, "replaced", None) is not None:
+        return oracle_replaced(ctx, sc, res)
     if ("flag", 0) in sc.ops:
         return oracle_recovery(ctx, sc, res)
     if res["load"] != "ok" or any(o != "ok" for o in res["ops"]):
